@@ -441,6 +441,7 @@ def run(report, p):
 
     # ---- rules shared with other properties (same mechanism, same rule, reported under every property it can break)
     include_rules(report, p, 'c08', ['R8.1'], 'the first recorded value is looked up in the history that owns the path')
+    include_rules(report, p, 'c08', ['R8.2'], 'the first recorded value lives in the deepest history: the mapping of nested histories must be transitive, or a deeper file gets a second original in an ancestor')
     include_rules(report, p, 'c13', ['R13.3'], 'the first recorded value is found only if the lookup key is the normalised history-relative path (relpath), however the path was spelled on the command line')
     include_rules(report, p, 'c01', ['R1.1'], 'the compared digest must cover the whole file')
     report.not_decided += ["behaviour over concrete generation sequences", "that the reference format's digest is recomputed correctly (C01)"]
